@@ -51,6 +51,10 @@ Domain : mode (Colang 1.0: three-step dialog pipeline, single-call mode `rails.d
          around the leaf x the slot it takes (list item, tuple item, set item, dict value, dict KEY, second dict key) x 0-3
          outer wrappers (list, tuple, dict value): classes `py-lit:<family>@<slot>[-in-tuple]`, labels `literal:...`,
          `literal-depth=<n>`.  Only the general oracle applies (generate returns a well-formed message, here and in later turns).
+         Value-message dimension (cfg key valmsg, two fifths of the Colang 1.0 dialog cases): the flow of route `value` utters the generated
+         value through a PREDEFINED bot message that mentions the variable (`"Your value is $val."`, variant val-last: also
+         `$last_bot_message`) instead of `bot $val`; half of them with a template payload as the generated value (and, half of those,
+         another payload in the LLM-written bot message of the turn before); enumerated first over mode x payload (x payload).
          A `context` message plants `secret_var = "S3CR3T"` in every conversation.
 Harness: vf.fakes (ScriptedLLM, fake embeddings, Session) + a subclass of vf.pipeline.Pipeline that builds the extra
          configurations (single-call, multi-step, passthrough, value generation), plants the context message and keeps the
@@ -136,6 +140,13 @@ RULE = (
     "1e400, the empty tuple) x 0-2 tuples around the leaf x slot in its container (list item, tuple item, set item, dict value, dict key, second dict key; key slots "
     "doubled) x 0-3 outer wrappers (list, list tail, tuple, dict value under a str / int key), i.e. nesting depth 1-6 (classes py-lit:<holdable|unholdable-bytes|-complex|-ellipsis>@<slot>[-in-tuple], "
     "labels literal:<class>:<task>, literal-depth=<n>, counters lit|mode|task|leaf|slot); "
+    "value-message dimension (configuration key valmsg, two fifths of the v1 dialog cases without self-check rails; labels config:value-through-predefined-message=<variant>, "
+    "value-into-predefined-message:<kind>:<mode>, counters valmsg|mode|variant|kind:class): the flow of route `value` utters the generated value not as `bot $val` but through a PREDEFINED bot message "
+    "written by the configuration's author that mentions the variable (`Your value is $val.`; variant val-last: the same message also mentions `$last_bot_message`); half of these cases use the shape "
+    "`the value-generation call answers with a template payload as a Python string literal` (VALUE_PAYLOADS = the message payloads + a failing expression {{ 1/0 }}, unclosed {% for %} / {% if %}, a Jinja comment, "
+    "an undefined call, `$val` / {{ val }} / `$last_bot_message` themselves), half of those with a second payload in the LLM-written bot message of the turn before (the text `$last_bot_message` then holds); "
+    "the other half cross the dimension with every other shape (literals, mutations, raw corpus, repeated answers at the value call); "
+    "enumerated FIRST: every v1 dialog mode x value payload for `$val` alone, and x (payload in the previous turn's LLM message, value payload) for val-last (quick: 9 payloads, two pairs per value payload; thorough: all 28 x 28). "
     "a context message plants secret_var. A third of the multi-turn v1 dialog cases use the stored-text shape: a payload in the LLM's "
     "message text of turn s and a variable-style bot intent (`bot $last_bot_message` / `$bot_message` / `$last_user_message`, also as "
     "the bot-intent line of a single-call answer) at the next-step position of a later turn. An enumerated core crosses the literal dimension with the value-generation calls (quick: 6 leaves x 6 slots x bare / inside a tuple, and the three unholdable "
@@ -156,6 +167,7 @@ ASSUMPTIONS = [
     "the caller keeps the conversation like the server: v1 passes the context message + previous user messages and returned replies back, v2 hands back the returned state",
     "well-formed = dict with role 'assistant' and str content, or role 'exception' and a dict content with a str 'type'; the fixed internal-error replies and empty replies are well-formed (counted per mode)",
     "message-text positions: generate_bot_message, general / passthrough completions, the message line of a single-call completion, the string of a `bot say \"...\"` generated by v2 flow continuation, a v2 generated value that the flow utters (as `bot say $x` or interpolated into a string literal written by the flow author: `\"P0: {$v0} / P1: {$v1}\"`); bot/user intents and generated flow bodies are not message text",
+    "a predefined bot message that mentions a variable (`$val`, `$last_bot_message`) shows the VALUE of the variable (documented: variables in bot messages); when the value is text the LLM wrote (the generated value of `$val = ...`, the stored previous bot message) that text is data: it appears in the reply as it is, template / variable syntax in it is not evaluated - the module's existing no-evaluation oracle (literal payload, no S3CR3T, no 49) applied to the reply that carries the call's marker, in the same turn (value) or a later one (stored message); nothing is asserted about the fixed words of the predefined message",
     "a `$variable` bot intent is resolved to the value of the context variable by design; what the reply is when that value is not a string (or when the intent is empty after the documented clean-up of `bot intent \"message\"` / `bot intent, more`) is unspecified - on the unchanged tree the generation action fails and the turn is answered with the fixed internal-error reply, which is a well-formed message; asserted is only that generate returns a well-formed message and does not raise, in that turn and in every later one",
     "built literal answers (py-lit:*): the source text is assembled at generation time from leaf / tuples / slot / wrappers and travels in the case; every one is accepted by ast.literal_eval; what the flow variable holds afterwards (the value, or nothing when the literal contains an element no variable can hold and the action fails) and what the bot then says is unspecified - asserted is only the statement's general part: generate returns a well-formed message and does not raise, in that turn and in every later turn (the Colang 2.x caller hands the returned state back, so a value that was accepted must also survive the state round trip); a literal that carries the call's marker in a str leaf is additionally subject to the existing no-evaluation tests (S3CR3T / 49), never to the literal-text test",
     "planted context variables (case[\"ctx\"]) are JSON values handed over in the caller's `context` message exactly like secret_var; pure passthrough mode runs without them (see below)",
@@ -184,6 +196,24 @@ define flow value
   $val = ...
   bot $val
 """
+
+# `valmsg` (configuration dimension of the Colang 1.0 dialog modes): the generated value is not uttered as `bot $val` but through
+# a PREDEFINED bot message, written by the configuration's author, that MENTIONS the variable (`"Your value is $val."`) - the
+# documented way of using an extracted value -; variant `val-last` lets the same predefined message also mention
+# `$last_bot_message` (the stored text of the previous bot message, which the LLM wrote in an earlier turn).
+V1_VALUE_MESSAGES = {
+    "val": "Your value is $val.",
+    "val-last": "Your value is $val. Before that I said: $last_bot_message",
+}
+VALMSG_INTENT = "inform value"
+
+
+def v1_value_colang(cfg):
+    vm = cfg.get("valmsg")
+    if not vm:
+        return V1_VALUE
+    return V1_VALUE.replace("  bot $val\n", f"  bot {VALMSG_INTENT}\n") + f'\ndefine bot {VALMSG_INTENT}\n  "{V1_VALUE_MESSAGES[vm]}"\n'
+
 
 V2_VALUE = """
 flow main
@@ -250,7 +280,7 @@ FIRST_BOT = {"predef": "express greeting", "llm": "inform weather", "pl": "expre
              "next_llm": "inform time", "next_predef": "offer help", "act_llm": "inform status", "value": "$val"}
 
 
-def make_cfg(mode, self_rails=False, exc=False, vals=2, tpl=None, utter="say"):
+def make_cfg(mode, self_rails=False, exc=False, vals=2, tpl=None, utter="say", valmsg=None):
     v, dialog = MODES[mode]
     cfg = {"v": v, "mode": mode, "dialog": dialog, "in": ["self"] if self_rails else [], "out": ["self"] if self_rails else [], "exc": bool(exc)}
     if v == 1:
@@ -259,6 +289,8 @@ def make_cfg(mode, self_rails=False, exc=False, vals=2, tpl=None, utter="say"):
         cfg["style"] = "config"
     if mode == "v2interp":
         cfg.update(vals=int(vals), tpl=list(tpl) if tpl is not None else list(range(int(vals))), utter=utter)
+    if valmsg and v == 1 and dialog:
+        cfg["valmsg"] = valmsg  # (key present only when set: the configurations of earlier cases / replays keep their cache key)
     return cfg
 
 
@@ -279,7 +311,7 @@ def build_config(cfg):
     y = yaml.safe_load(y)
     if cfg["v"] == 1:
         if cfg["dialog"]:
-            co = co + "\n" + V1_VALUE
+            co = co + "\n" + v1_value_colang(cfg)
         if mode == "single":
             y.setdefault("rails", {})["dialog"] = {"single_call": {"enabled": True}}
         elif mode == "multi":
@@ -769,6 +801,38 @@ def echo_places(mode, first_route, payload_class, echo_class, s=0, t=1):
     k_msg = 2 if first_route in ("next_llm",) else 1
     return [[s, k_msg, msg_spec(payload_class)], [t, 1, raw_spec(echo_class)]]
 
+# payloads of the shape `generated value rendered through a predefined message`: the message payloads + template texts that
+# only make a difference when they are evaluated as a WHOLE template (an expression that fails, statements that do not close,
+# a comment, a variable of the render context other than the planted one, the mentioned variable itself)
+VALUE_PAYLOADS = dict(PAYLOADS, **{
+    "jinja-div-zero": "{{ 1/0 }}",
+    "jinja-for-unclosed": "{% for x in y %}",
+    "jinja-if-unclosed": "{% if secret_var %}yes",
+    "jinja-comment": "{# gone #}",
+    "jinja-undefined-call": "{{ nothing() }}",
+    "dollar-own-var": "$val",
+    "dollar-last-bot-message": "$last_bot_message",
+    "jinja-own-var": "{{ val }}",
+})
+CORE_VALUE_PAYLOADS = ["jinja-expr", "jinja-stmt", "jinja-div-zero", "jinja-for-unclosed", "jinja-var", "dollar-var", "brace-dollar-var", "dollar-own-var", "jinja-comment"]
+
+
+def value_msg_spec(c):
+    return {"c": c, "payload": VALUE_PAYLOADS[c]}
+
+
+def valmsg_case(mode, valmsg, value_class, first_class=None, first_route="llm", api="sync"):
+    """Conversation of the shape `LLM-written value -> predefined bot message that mentions the variable`: [a turn whose bot
+    message the LLM writes, with payload first_class - the text `$last_bot_message` holds afterwards -,] a turn of route `value`
+    whose value-generation call (call 1) answers with payload value_class, the benign closing turn."""
+    cfg = make_cfg(mode, valmsg=valmsg)
+    routes = ([first_route] if first_class else []) + ["value", "llm"]
+    turns = [{"user": f"{mk_user(t)} {USER_TEXT[r]}", "route": r, "body": f"answer {t}", "in": [], "out": []} for t, r in enumerate(routes)]
+    place = [[0, first_message_k(cfg, first_route), value_msg_spec(first_class)]] if first_class else []
+    place.append([len(routes) - 2, 1, value_msg_spec(value_class)])
+    return {"config": cfg, "turns": turns, "place": place, "api": api}
+
+
 INS_TOKENS = ['"', "'", "\n", "\n  ", " ", "$", "{", "}", "{{", "}}", "{%", ":", "bot ", "user ", "#", "(", ")", BS, "\t", "...", "=", "and ", "or ", ",", "-", "\x00", "é", "$secret_var", "{{ 7*7 }}", "define flow ", "execute ", "if ", "while ", "flow ", "bot action: ", "bot intent: ", "user intent: ",
               "<think>", "</think>", "<think>\n", BS + "ud83d", BS + "ude00"]  # (the last two: a lone surrogate, escaped - see unesc)
 
@@ -894,7 +958,7 @@ LLM_MARK = re.compile(r"LM\d+C\d+Z")
 
 
 def _family(payload):
-    if "{{" in payload or "{%" in payload:
+    if "{{" in payload or "{%" in payload or "{#" in payload:
         return "jinja"
     if "{" in payload:
         return "brace"
@@ -960,7 +1024,8 @@ class C17Session(fakes.Session):
         if intent is not None and task not in ("single_call", "generate_next_steps"):
             return "bot " + intent
         if task == "single_call":
-            return f'  {INTENT[route]}\nbot {FIRST_BOT[route] if intent is None else intent}\n  "{text}"'
+            first = VALMSG_INTENT if route == "value" and self.cfg.get("valmsg") else FIRST_BOT[route]
+            return f'  {INTENT[route]}\nbot {first if intent is None else intent}\n  "{text}"'
         if task == "generate_user_intent":
             return "  " + INTENT[route]
         if task == "generate_next_steps":
@@ -1207,6 +1272,20 @@ def _case(draw):
     if mode == "v2llmc" and "co2-flow-body-self-start" not in WITHHELD_RAW and draw(st.sampled_from([True, False, False, False])):
         for tt, k, spec in recursion_places(mode, draw(st.integers(0, n - 1)), other=draw(st.booleans())):
             places[(tt, k)] = spec
+    if cfg["v"] == 1 and cfg["dialog"] and not self_rails and draw(st.sampled_from([True, True, False, False, False])):
+        # configuration dimension valmsg: the generated value of route `value` is uttered through a predefined message that mentions
+        # `$val` (two fifths of the Colang 1.0 dialog cases; half of them - when no other shape took the placements - with the shape
+        # `a template payload as the generated value` [+ `a payload in the LLM-written bot message of the turn before`])
+        cfg["valmsg"] = draw(st.sampled_from(["val", "val", "val-last"]))
+        if not places and draw(st.booleans()):
+            t = draw(st.integers(0, n - 1))
+            turns[t]["route"] = "value"
+            turns[t]["user"] = f"{mk_user(t)} {USER_TEXT['value']}"
+            places[(t, 1)] = value_msg_spec(draw(st.sampled_from(sorted(VALUE_PAYLOADS))))
+            if t > 0 and draw(st.booleans()):
+                turns[t - 1]["route"] = draw(st.sampled_from(["llm", "next_llm", "act_llm"]))
+                turns[t - 1]["user"] = f"{mk_user(t - 1)} {USER_TEXT[turns[t - 1]['route']]}"
+                places[(t - 1, first_message_k(cfg, turns[t - 1]["route"]))] = value_msg_spec(draw(st.sampled_from(sorted(VALUE_PAYLOADS))))
     ctx = None
     if cfg["v"] == 1 and mode != "pass" and draw(st.sampled_from([True, False, False])):
         ctx = dict(PLANTED)  # the caller's context message carries variables of non-string types too
@@ -1301,6 +1380,17 @@ def enumerate_cases(tier):
     # leaves no variable can hold); Colang 2.x value generation uttered as a variable and through an interpolated string (first
     # and second value), thorough tier also the Colang 1.0 `$val = ...` flow
     quick = tier == "quick"
+    # generated value rendered through a predefined message that mentions the variable: every Colang 1.0 dialog mode x
+    # (`$val` alone: value payload; `$val` + `$last_bot_message`: payload in the LLM-written message of the turn before x value payload)
+    vps = CORE_VALUE_PAYLOADS if quick else sorted(VALUE_PAYLOADS)
+    for mode in ("three", "single", "multi", "passdlg"):
+        for c in vps:
+            yield valmsg_case(mode, "val", c)
+        for i, c in enumerate(vps):
+            for j, first in enumerate(vps):
+                if quick and (i + j) % len(vps) not in (0, 1):
+                    continue  # quick: two first-message payloads per value payload (a Latin-square slice), thorough: every pair
+                yield valmsg_case(mode, "val-last", c, first_class=first, first_route="next_llm" if (i + j) % 3 == 0 and mode != "single" else "llm")
     lits = [lit_spec(leaf, tup, slot) for leaf in (CORE_LIT_LEAVES if quick else sorted(LIT_LEAVES)) for slot in LIT_SLOTS for tup in ((0, 1) if quick else (0, 1, 2))]
     deep = [lit_spec(leaf, tup, slot, wraps) for leaf in (CORE_LIT_LEAVES[:3] if quick else sorted(LIT_FAMILY)) for slot in LIT_SLOTS
             for i, wraps in enumerate(CORE_LIT_WRAPS) for tup in ((i,) if quick else (0, 1, 2))]
@@ -1477,6 +1567,8 @@ def _check(case, obs):
     counters = {}
     if case.get("ctx"):
         labels.append("context:non-string-variables-planted")
+    if cfg.get("valmsg"):
+        labels.append(f"config:value-through-predefined-message={cfg['valmsg']}")
     same = {}
     for t_, k_, sp_ in case.get("place", []):
         same.setdefault((k_, json.dumps(sp_, sort_keys=True)), set()).add(t_)
@@ -1565,6 +1657,10 @@ def _check(case, obs):
             if r["task"] in VALUE_TASKS and spec_.get("lit"):
                 labels.append(f"literal-depth={1 + spec_['lit']['tuples'] + len(spec_['lit']['wraps'])}")
                 counters[f"lit|{cfg['mode']}|{r['task']}|{spec_['lit']['leaf']}|{spec_['lit']['slot']}"] = 1
+        if cfg.get("valmsg") and r["task"] == "v1_value":
+            # the value the LLM wrote is rendered through the predefined message that mentions the variable
+            labels.append(f"value-into-predefined-message:{r['kind']}:{cfg['mode']}")
+            counters[f"valmsg|{cfg['mode']}|{cfg['valmsg']}|{r['kind']}:{cls}"] = 1
         if r["kind"] == "int":
             labels.append(f"bot-intent:{r['c']}:{r['task'] if r['task'] in ('generate_next_steps', 'single_call') else 'other-task'}")
         if family(r["c"]):
